@@ -22,6 +22,11 @@
      prefix, value clamped / wrapped per type, rest ignored         (every s has the shape ws ++ sign ++ digits ++ rest and the four results
                                                                     are parsed_int/uint/int64/uint64 of sign and digits), parsers_value_of_shape
                                                                     (any such reading of s gives these results), noncanonical_forms_agree
+   ... the same conversions and the String overloads of the      attached_conversions_see_the_window_only, attached_conversions_equal_owned
+     readers on a String that does not own its bytes (attach):      (a readable byte behind the window: its value and what follows never matter),
+     the C-string view reads the byte BEHIND the window             attached_conversions_need_a_readable_byte (none: the view is out of bounds),
+                                                                    string_overloads_as_found_refuted / string_overloads_as_found_partial
+                                                                    (fromString/isValid(const String&) before fix 02 went through that view)
    fromHex yields the upper-case hexadecimal text                 hex_is_upper_hex (hex digit table regenerated)
    fromBase64 returns the original bytes for every RFC 4648       base64_inverts_rfc4648 (all byte strings: induction
      encoding                                                       over 3-byte groups + 3 tails), base64_decodes_every_rfc4648_text
@@ -33,7 +38,7 @@
    (the code looks at its input through (char)/(unsigned char) casts only). *)
 From Coq Require Import ZArith List.
 From Common Require Import Words ListAux.
-From Codec Require Import Gen_Codec CodecSpec CodecModel CodecProofs CodecProofsInt CodecProofsParse.
+From Codec Require Import Gen_Codec CodecSpec CodecModel CodecProofs CodecProofsInt CodecProofsParse CodecProofsAtt.
 Import ListNotations.
 Local Open Scope Z_scope.
 
@@ -230,6 +235,53 @@ Example noncanonical_forms_agree_nv :
   to_int ([32; 10] ++ [43] ++ ([48; 48] ++ [52; 50]) ++ [32; 55]) = 42 /\ to_int [52; 50] = 42 /\
   to_uint ([13] ++ [45] ++ ([48] ++ [49]) ++ [46; 53]) = 4294967295.
 Proof. vm_compute. repeat split. Qed.
+
+(* ---- Strings that do not own their bytes (String::attach): window ++ tail is the attached block ----------------------------- *)
+
+(* with at least one readable byte behind the window the four conversions return what the window alone stands for:
+   neither the byte behind it (NUL or not) nor anything after it occurs on the right-hand side *)
+Theorem attached_conversions_see_the_window_only : forall s tail, tail <> [] ->
+  to_int_att s tail = Ok (to_int s) /\ to_uint_att s tail = Ok (to_uint s) /\
+  to_int64_att s tail = Ok (to_int64 s) /\ to_uint64_att s tail = Ok (to_uint64 s).
+Proof. exact attached_parsers_window. Qed.
+Print Assumptions attached_conversions_see_the_window_only.
+
+Theorem attached_conversions_equal_owned : forall s tail, tail <> [] ->
+  to_int_att s tail = to_int_chk s /\ to_uint_att s tail = to_uint_chk s /\
+  to_int64_att s tail = to_int64_chk s /\ to_uint64_att s tail = to_uint64_chk s.
+Proof. exact attached_parsers_as_owned. Qed.
+Print Assumptions attached_conversions_equal_owned.
+
+(* the precondition is needed: when the allocation ends with the window, the view's look at the byte behind it is out of bounds *)
+Theorem attached_conversions_need_a_readable_byte : forall s,
+  to_int_att s [] = Err OutOfBounds /\ to_uint_att s [] = Err OutOfBounds /\
+  to_int64_att s [] = Err OutOfBounds /\ to_uint64_att s [] = Err OutOfBounds.
+Proof. exact attached_parsers_unreadable. Qed.
+Print Assumptions attached_conversions_need_a_readable_byte.
+Example attached_conversions_nv :
+  to_int_att [49; 50] [51; 52] = Ok 12 /\            (* "12" attached inside "1234": 12, not 1234 *)
+  to_int_att [49; 50] [0; 57] = Ok 12 /\ to_uint64_att [45; 49] [57] = Ok 18446744073709551615 /\
+  c_view [49; 50] [51; 52] = Ok [49; 50; 0] /\ c_view [49; 50] [0; 57] = Ok [49; 50; 0; 57] /\
+  to_int64_att [49; 50] [] = Err OutOfBounds.
+Proof. vm_compute. split; [reflexivity|]. split; [reflexivity|]. split; [reflexivity|]. split; [reflexivity|]. split; reflexivity. Qed.
+
+(* Unicode::fromString(const String&) and isValid(const String&) as found (before fixes/C18/02) converted the String
+   through the same view: on a String attached to an exactly sized block that is a read beyond the range they were given,
+   for EVERY window; with a readable byte behind the window they equal the pointer overloads.  As repaired they ARE the
+   pointer overloads on the window (from_string / is_valid above), so the bounds theorems of the UTF-8 block apply. *)
+Theorem string_overloads_as_found_refuted : forall s,
+  from_string_view s [] = Err OutOfBounds /\ is_valid_view s [] = Err OutOfBounds.
+Proof. exact readers_view_unreadable. Qed.
+Print Assumptions string_overloads_as_found_refuted.
+
+Theorem string_overloads_as_found_partial : forall s tail, tail <> [] ->
+  from_string_view s tail = from_string s /\ is_valid_view s tail = is_valid s.
+Proof. exact readers_view_readable. Qed.
+Print Assumptions string_overloads_as_found_partial.
+Example string_overloads_as_found_nv :
+  from_string_view [226; 130; 172] [] = Err OutOfBounds /\ from_string [226; 130; 172] = Ok 8364 /\
+  from_string_view [226; 130] [172] = Ok 0 /\ is_valid_view [226; 130] [172] = Ok false.   (* the truncated window stays truncated *)
+Proof. vm_compute. split; [reflexivity|]. split; [reflexivity|]. split; reflexivity. Qed.
 
 (* ---- hex ------------------------------------------------------------------------------------------------ *)
 
